@@ -19,7 +19,7 @@ type Stats struct {
 	Paths, Done, Panicked, AssumeFalse, Bound, Unsupported, Fatal, Deadlock int
 	Forks, Steps                                                         int
 	AssertChecks, AssertQueries, AssertFail, AssertUnknown               int
-	FeasUnknown                                                          int
+	FeasUnknown, ModelHits                                               int
 	Funcs                                                                map[string]bool
 	Reach                                                                map[string]int
 	Notes                                                                map[string]int
@@ -37,6 +37,7 @@ type Config struct {
 	MaxConcretize int
 	Params      map[string]int
 	NoIncremental bool
+	NoModelCache bool
 	SkipFuncs   map[string]bool // functions treated as no-ops (default results)
 	SampleDone  int // number of completed paths whose model is kept for native validation
 }
@@ -57,6 +58,8 @@ type Interp struct {
 	Samples  []string
 	DoneVectors [][]uint64
 	StepProf map[*ssa.Function]int
+	predTerms map[predKey]*term.Term
+	satModel  map[int]uint64
 	rtPkg  *ssa.Package
 	base   map[int]Value // frozen heap after pre-init
 }
@@ -148,7 +151,9 @@ func (in *Interp) finish(s *State) {
 	case Done:
 		in.St.Done++
 		if len(in.DoneVectors) < in.cfg.SampleDone && len(s.fails) == 0 && in.St.Done%3 == 1 {
-			if r, err := in.check(s); err == nil && r == smt.Sat {
+			if in.modelValid(s) {
+				in.DoneVectors = append(in.DoneVectors, in.vector(s, in.namedModel(s)))
+			} else if r, err := in.check(s); err == nil && r == smt.Sat {
 				m, _ := in.sol.Model(in.traceVars(s))
 				in.DoneVectors = append(in.DoneVectors, in.vector(s, m))
 			}
@@ -193,6 +198,12 @@ func (in *Interp) finish(s *State) {
 // fail records a terminal-state failure with a model of the path condition.
 func (in *Interp) fail(s *State, kind, label, pos string) {
 	f := &Failure{Kind: kind, Label: label, Pos: pos, Choices: s.choices()}
+	if in.modelValid(s) {
+		f.Model = in.namedModel(s)
+		f.Vector = in.vector(s, f.Model)
+		s.fails = append(s.fails, f)
+		return
+	}
 	r, err := in.check(s)
 	if err == nil && r == smt.Sat {
 		m, merr := in.sol.Model(in.traceVars(s))
@@ -443,14 +454,47 @@ func (in *Interp) check(s *State, extra ...*term.Term) (smt.Result, error) {
 	return in.sol.CheckInc(s.pcItems(), extra)
 }
 
-// feasible: is pc ∧ c satisfiable?  unknown counts as feasible.
-func (in *Interp) feasible(s *State, c *term.Term) bool {
-	if c.IsTrue() {
-		return true
-	}
-	if c.IsFalse() {
+// modelValid reports whether s carries an assignment that satisfies its whole path condition,
+// extending a model known for an ancestor of s.pc by evaluating the conjuncts added since.
+func (in *Interp) modelValid(s *State) bool {
+	if in.cfg.NoModelCache || s.model == nil {
 		return false
 	}
+	if s.modelPC == s.pc {
+		return true
+	}
+	memo := map[int]uint64{}
+	for n := s.pc; n != s.modelPC; n = n.parent {
+		if n == nil {
+			s.model = nil
+			return false
+		}
+		v, ok := term.Eval(n.c, s.model, memo)
+		if !ok || v != 1 {
+			s.model = nil
+			return false
+		}
+	}
+	s.modelPC = s.pc
+	return true
+}
+
+// evalModel evaluates c under the state's cached model: (value, have).
+func (in *Interp) evalModel(s *State, c *term.Term) (bool, bool) {
+	if !in.modelValid(s) {
+		return false, false
+	}
+	v, ok := term.Eval(c, s.model, map[int]uint64{})
+	if !ok {
+		return false, false
+	}
+	in.St.ModelHits++
+	return v == 1, true
+}
+
+// query asks the solver whether pc ∧ c is satisfiable; on sat the model is kept in in.satModel.
+func (in *Interp) query(s *State, c *term.Term) bool {
+	in.satModel = nil
 	pid := 0
 	if s.pc != nil {
 		pid = s.pc.id
@@ -467,6 +511,11 @@ func (in *Interp) feasible(s *State, c *term.Term) bool {
 		}
 	}
 	if r == smt.Sat {
+		if !in.cfg.NoModelCache {
+			if m, merr := in.sol.ModelIDs(in.traceVars(s)); merr == nil {
+				in.satModel = m
+			}
+		}
 		in.sol.Pop()
 	}
 	if r == smt.Unknown {
@@ -475,6 +524,20 @@ func (in *Interp) feasible(s *State, c *term.Term) bool {
 	v := r != smt.Unsat
 	in.feasCache[key] = v
 	return v
+}
+
+// feasible: is pc ∧ c satisfiable?  unknown counts as feasible.
+func (in *Interp) feasible(s *State, c *term.Term) bool {
+	if c.IsTrue() {
+		return true
+	}
+	if c.IsFalse() {
+		return false
+	}
+	if v, have := in.evalModel(s, c); have && v {
+		return true
+	}
+	return in.query(s, c)
 }
 
 // known scans the path condition for c or ¬c.
@@ -491,6 +554,13 @@ func (in *Interp) known(s *State, c *term.Term) (val, ok bool) {
 	return false, false
 }
 
+// adopt makes m (a model of the state's pc including the conjunct just added) the state's model.
+func (in *Interp) adopt(s *State, m map[int]uint64) {
+	if m != nil {
+		s.model, s.modelPC = m, s.pc
+	}
+}
+
 // decide gives the truth value of c in s.  If both values are feasible the
 // state is forked: the returned state has ¬c added and s has c added; both
 // re-execute the current instruction, so decide must be called before the
@@ -505,18 +575,52 @@ func (in *Interp) decide(s *State, c *term.Term) (bool, *State) {
 	if v, ok := in.known(s, c); ok {
 		return v, nil
 	}
-	if !in.feasible(s, c) {
-		in.addPC(s, in.ts.Not(c))
+	nc := in.ts.Not(c)
+	if mv, have := in.evalModel(s, c); have {
+		// the cached model settles one side for free
+		if mv {
+			if !in.query(s, nc) {
+				in.addPC(s, c)
+				return true, nil
+			}
+			m := in.satModel
+			o := s.clone()
+			in.addPC(o, nc)
+			o.model = nil
+			in.adopt(o, m)
+			in.addPC(s, c)
+			return true, o
+		}
+		if !in.query(s, c) {
+			in.addPC(s, nc)
+			return false, nil
+		}
+		m := in.satModel
+		o := s.clone()
+		in.addPC(o, nc) // keeps the old model, which satisfies ¬c
+		in.addPC(s, c)
+		s.model = nil
+		in.adopt(s, m)
+		return true, o
+	}
+	if !in.query(s, c) {
+		in.addPC(s, nc)
 		return false, nil
 	}
-	nc := in.ts.Not(c)
-	if !in.feasible(s, nc) {
+	mc := in.satModel
+	if !in.query(s, nc) {
 		in.addPC(s, c)
+		in.adopt(s, mc)
 		return true, nil
 	}
+	mn := in.satModel
 	o := s.clone()
 	in.addPC(o, nc)
+	o.model = nil
+	in.adopt(o, mn)
 	in.addPC(s, c)
+	s.model = nil
+	in.adopt(s, mc)
 	return true, o
 }
 
@@ -671,18 +775,56 @@ func (in *Interp) tableLookup(a *Agg, idx *term.Term) Value {
 	}
 	type run struct {
 		lo, hi int
-		v      *term.Term
+		v      *term.Term // constant-value run (delta == false) ...
+		delta  bool       // ... or run on which value == index + d
+		d      uint64
+	}
+	// all elements constant bit-vectors: also look for affine runs value = index + d
+	allConstBV := true
+	w := 0
+	for _, e := range a.Elems {
+		t := e.(*term.Term)
+		if !t.IsConst() || t.S.K != term.KBV {
+			allConstBV = false
+			break
+		}
+		w = t.S.W
 	}
 	var runs []run
 	for j := 0; j < n; j++ {
 		t := a.Elems[j].(*term.Term)
-		if len(runs) > 0 && runs[len(runs)-1].v == t {
-			runs[len(runs)-1].hi = j
-		} else {
-			runs = append(runs, run{j, j, t})
+		if len(runs) > 0 {
+			last := &runs[len(runs)-1]
+			if !last.delta && last.v == t {
+				last.hi = j
+				continue
+			}
+			if allConstBV {
+				mask := ^uint64(0)
+				if w < 64 {
+					mask = uint64(1)<<uint(w) - 1
+				}
+				d := (t.Val - uint64(j)) & mask
+				if last.delta && last.d == d {
+					last.hi = j
+					continue
+				}
+				// start an affine run from a single-element constant run
+				if !last.delta && last.lo == last.hi && (last.v.Val-uint64(last.lo))&mask == d {
+					last.delta, last.d, last.hi = true, d, j
+					continue
+				}
+			}
 		}
+		runs = append(runs, run{lo: j, hi: j, v: t})
 	}
-	r := runs[len(runs)-1].v
+	leaf := func(ru run) *term.Term {
+		if !ru.delta {
+			return ru.v
+		}
+		return in.ts.Add(in.ts.Resize(idx, w, false), in.ts.Const(w, ru.d))
+	}
+	r := leaf(runs[len(runs)-1])
 	for k := len(runs) - 2; k >= 0; k-- {
 		ru := runs[k]
 		var c *term.Term
@@ -691,7 +833,7 @@ func (in *Interp) tableLookup(a *Agg, idx *term.Term) Value {
 		} else {
 			c = in.ts.And(in.ts.Ule(in.ts.Const(64, uint64(ru.lo)), idx), in.ts.Ule(idx, in.ts.Const(64, uint64(ru.hi))))
 		}
-		r = in.ts.Ite(c, ru.v, r)
+		r = in.ts.Ite(c, leaf(ru), r)
 	}
 	return r
 }
